@@ -231,8 +231,7 @@ tagspec(struct scope *s)
 		if (!t->u.structunion.members)
 			error(&tok.loc, "struct/union has no members");
 		next();
-		if (!b.pack)
-			t->size = ALIGNUP(t->size, t->align);
+		t->size = ALIGNUP(t->size, t->align);
 #ifdef CPROC_VERIF
 		vtrace("{\"e\":\"tagend\",\"sid\":%llu,\"kind\":\"%s\",\"pk\":%d,\"size\":%llu,\"align\":%d}",
 			(unsigned long long)(size_t)t, t->kind == TYPEUNION ? "union" : "struct", (int)b.pack,
